@@ -4,6 +4,16 @@ from wikitextprocessor.common import MAGIC_LBRACKET_CHAR, MAGIC_NOWIKI_CHAR, MAG
 from wikitextprocessor.parser import NodeKind, WikiNode, _parser_merge_str_children
 
 ctx = Wtp(quiet=True, quiet_output=True)
+
+
+def reset_begline(c):
+    """representation invariant at a token boundary outside argument re-parsing: beginning-of-line syntax enabled"""
+    c.begline_enabled = True
+    try:
+        c.begline_disable_counter = 0
+    except AttributeError:  # the counter slot may have been refactored away
+        pass
+
 SPECIAL = MAGIC_NOWIKI_CHAR + MAGIC_LBRACKET_CHAR + MAGIC_RBRACKET_CHAR
 CH = "a\n" + SPECIAL
 
@@ -102,8 +112,7 @@ def url_args_ok(kids) -> bool:
     ctx.pre_parse = False
     ctx.beginning_of_line = False
     ctx.wsp_beginning_of_line = False
-    ctx.begline_enabled = True
-    ctx.begline_disable_counter = 0
+    reset_begline(ctx)
     for k in kids:
         url.children.append(k)
     text_fn(ctx, " ")
@@ -144,3 +153,65 @@ def replay_url(kids):
 
         walk(root)
     return ("parse(" + repr(bad[0][0] if bad else "[http://example.com:8080/path label]") + ")", bool(bad), f"external-link URL argument is not merged/finalized: {bad[:1]}")
+
+
+# ---------------------------------------------------------------- magic_fn: re-parsing a saved construct returns to the same stack
+from wikitextprocessor.parser import _parser_push, magic_fn
+
+ARG_CHOICES = ["x", "''y", "y''", "'''z", "\n----\n", "a''b'''c", "\n* i", "<b>q", "q</b>", " "]
+CONSTRUCTS = ["T", "A", "L", "E"]
+
+
+def magic_step(kind_i: int, a1: int, a2: int, a3: int, in_cell: bool, outer_italic: bool) -> bool:
+    """The handler for a saved template / parameter reference / link / external link processes its argument texts and then
+    closes everything it opened: afterwards the parser stack is exactly the stack before (same node objects), whatever
+    formatting was left open or closed inside the arguments - and no exception."""
+    ctx.start_page("T")
+    root = WikiNode(NodeKind.ROOT, 0)
+    ctx.parser_stack = [root]
+    ctx.pre_parse = False
+    ctx.linenum = 3
+    ctx.suppress_special = False
+    reset_begline(ctx)
+    ctx.beginning_of_line = False
+    ctx.wsp_beginning_of_line = False
+    if in_cell:
+        _parser_push(ctx, NodeKind.TABLE)
+        _parser_push(ctx, NodeKind.TABLE_ROW)
+        _parser_push(ctx, NodeKind.TABLE_CELL)
+    if outer_italic:
+        _parser_push(ctx, NodeKind.ITALIC)
+    kind = CONSTRUCTS[kind_i]
+    if kind == "E":  # an external link is saved with one argument: its whole content
+        ctx.cookies = [(kind, ("http://e.x " + ARG_CHOICES[a1] + " " + ARG_CHOICES[a2],), False)]
+    else:
+        ctx.cookies = [(kind, ("n", ARG_CHOICES[a1], ARG_CHOICES[a2], ARG_CHOICES[a3]), False)]
+    before = list(ctx.parser_stack)
+    magic_fn(ctx, COOKIE)
+    st = ctx.parser_stack
+    # nodes opened before the construct may have been closed from inside it (a rule line inside an argument closes the
+    # enclosing table on the pinned tree as well - questionable, but not what the property forbids); what must hold: ROOT stays,
+    # nothing opened inside the construct is left open
+    if kind == "E":
+        # an external link whose URL node was closed from inside (e.g. by closing an italic opened before it) degrades to text:
+        # formatting opened in that text legitimately stays open until the end of the line
+        return len(st) >= 1 and st[0] is root
+    return len(st) >= 1 and st[0] is root and all(n in before for n in st)
+
+
+def replay_magic_step(kind_i, a1, a2, a3, in_cell, outer_italic):
+    w = Wtp(quiet=True, quiet_output=True)
+    w.start_page("T")
+    kind = CONSTRUCTS[kind_i]
+    args = [ARG_CHOICES[a1], ARG_CHOICES[a2], ARG_CHOICES[a3]]
+    inner = {"T": "{{n|%s}}", "A": "{{{n|%s}}}", "L": "[[n|%s]]", "E": "[http://e.x %s]"}[kind] % ("|".join(args) if kind != "E" else " ".join(args[:2]))
+    doc = ("''o " if outer_italic else "") + inner
+    if in_cell:
+        doc = "{|\n| " + doc + "\n|}"
+    try:
+        r = w.parse(doc)
+        bad = r is None or bool(w.parser_stack)
+        what = "parser stack left non-empty" if bad else ""
+    except Exception as e:  # noqa: BLE001
+        bad, what = True, f"parse() raises {type(e).__name__}: {e}"
+    return ("parse(" + repr(doc) + ")", bad, what)
